@@ -553,6 +553,9 @@ impl Prop for C16 {
     }
     2
   }
+  fn cold_subs(&self) -> Vec<(&'static str, i64, i64, fn(i64) -> Vec<i64>)> {
+    vec![("limit", 366, crate::model::NDAYS as i64 - 4400, |x| vec![x, (x * 7919).rem_euclid(86400), x & 1])]
+  }
   fn eval(&self, env: &Env, out: &mut Out, sub: &str, case: &Case) {
     match sub {
       "limit" => self.eval_limit(env, out, case),
